@@ -12,6 +12,7 @@ import (
 	"crypto/rand"
 	"crypto/rsa"
 	"fmt"
+	"io"
 	"math/big"
 	"os"
 	"os/exec"
@@ -220,4 +221,60 @@ func (g *GPG) Close() {
 // Fingerprint returns the upper-case hex fingerprint of the primary key.
 func Fingerprint(e *openpgp.Entity) string {
 	return strings.ToUpper(fmt.Sprintf("%x", e.PrimaryKey.Fingerprint[:]))
+}
+
+// Chunked is an io.Reader over data that hands out one chunk per Read, with chunk lengths chosen by Next (given the
+// remaining data).  It deliberately implements neither io.WriterTo nor anything else, like a file or a socket, so that
+// io.Copy issues one Write per chunk.
+type Chunked struct {
+	Data []byte
+	Next func(rem []byte) int
+}
+
+func (c *Chunked) Read(p []byte) (int, error) {
+	if len(c.Data) == 0 {
+		return 0, io.EOF
+	}
+	n := c.Next(c.Data)
+	if n < 1 {
+		n = 1
+	}
+	if n > len(c.Data) {
+		n = len(c.Data)
+	}
+	if n > len(p) {
+		n = len(p)
+	}
+	copy(p, c.Data[:n])
+	c.Data = c.Data[n:]
+	return n, nil
+}
+
+// Chunkers returns named ways of cutting data into reads: all at once (but through a plain io.Reader, i.e. io.Copy's 32 KiB
+// buffer), byte by byte, right after every CR, right before every LF plus seeded sizes, and fixed sizes.
+func Chunkers(seed int64) map[string]func(data []byte) io.Reader {
+	mk := func(next func(rem []byte) int) func([]byte) io.Reader {
+		return func(d []byte) io.Reader { return &Chunked{Data: append([]byte{}, d...), Next: next} }
+	}
+	state := uint64(seed)*6364136223846793005 + 1442695040888963407
+	return map[string]func([]byte) io.Reader{
+		"memory":  func(d []byte) io.Reader { return bytes.NewReader(d) },
+		"plain":   mk(func(rem []byte) int { return len(rem) }),
+		"onebyte": mk(func(rem []byte) int { return 1 }),
+		"afterCR": mk(func(rem []byte) int {
+			if i := bytes.IndexByte(rem, '\r'); i >= 0 {
+				return i + 1
+			}
+			return len(rem)
+		}),
+		"seeded": mk(func(rem []byte) int {
+			state = state*6364136223846793005 + 1442695040888963407
+			n := 1 + int(state>>33)%97
+			if i := bytes.IndexByte(rem[:min(n, len(rem))], '\r'); i >= 0 && (state>>20)&1 == 0 {
+				return i + 1
+			}
+			return n
+		}),
+		"k7": mk(func(rem []byte) int { return 7 }),
+	}
 }
